@@ -12,6 +12,7 @@ import (
 	"github.com/formancehq/ledger/internal/bus"
 	"github.com/formancehq/ledger/internal/engine/utils/batching"
 	"github.com/formancehq/ledger/internal/machine/vm"
+	"github.com/formancehq/ledger/internal/verifhook"
 	"github.com/formancehq/stack/libs/go-libs/collectionutils"
 	"github.com/formancehq/stack/libs/go-libs/metadata"
 	"github.com/pkg/errors"
@@ -83,11 +84,14 @@ func (commander *Commander) exec(ctx context.Context, parameters Parameters, scr
 	return execContext.run(ctx, func(executionContext *executionContext) (*ledger.ChainedLog, chan struct{}, error) {
 		if script.Reference != "" {
 			if err := commander.referencer.take(referenceTxReference, script.Reference); err != nil {
+				verifhook.Yield(ctx, "ref.busy", "ref", script.Reference)
 				return nil, nil, NewErrConflict()
 			}
 			defer commander.referencer.release(referenceTxReference, script.Reference)
+			verifhook.Yield(ctx, "ref.taken", "ref", script.Reference)
 
 			_, err := commander.store.GetTransactionByReference(ctx, script.Reference)
+			verifhook.Yield(ctx, "ref.lookup", "hit", err == nil)
 			if err == nil {
 				return nil, nil, NewErrConflict()
 			}
@@ -118,18 +122,23 @@ func (commander *Commander) exec(ctx context.Context, parameters Parameters, scr
 			Write: collectionutils.Filter(involvedSources, worldFilter),
 		}
 
+		verifhook.Yield(ctx, "resolved", "read", lockAccounts.Read, "write", lockAccounts.Write)
 		unlock, err := commander.locker.Lock(ctx, lockAccounts)
 		if err != nil {
 			return nil, nil, errors.Wrap(err, "locking accounts for tx processing")
 		}
+		verifhook.Yield(ctx, "locked")
 		unlock(ctx)
+		verifhook.Yield(ctx, "unlocked")
 
 		err = m.ResolveBalances(ctx, commander.store)
 		if err != nil {
 			return nil, nil, errors.Wrap(err, "could not resolve balances")
 		}
 
+		verifhook.Yield(ctx, "balances")
 		result, err := vm.Run(m, script)
+		verifhook.Yield(ctx, "ran", "ok", err == nil)
 		if err != nil {
 			return nil, nil, NewErrMachine(err)
 		}
@@ -145,6 +154,7 @@ func (commander *Commander) exec(ctx context.Context, parameters Parameters, scr
 			WithID(commander.nextTXID()).
 			WithReference(script.Reference)
 
+		verifhook.Yield(ctx, "txid", "id", tx.ID, "dry", parameters.DryRun)
 		log := logComputer(tx, result.AccountMetadata)
 		if parameters.IdempotencyKey != "" {
 			log = log.WithIdempotencyKey(parameters.IdempotencyKey)
@@ -208,11 +218,14 @@ func (commander *Commander) SaveMeta(ctx context.Context, parameters Parameters,
 func (commander *Commander) RevertTransaction(ctx context.Context, parameters Parameters, id *big.Int, force bool) (*ledger.Transaction, error) {
 
 	if err := commander.referencer.take(referenceReverts, id); err != nil {
+		verifhook.Yield(ctx, "revert.busy", "id", id)
 		return nil, NewErrRevertTransactionOccurring()
 	}
 	defer commander.referencer.release(referenceReverts, id)
+	verifhook.Yield(ctx, "revert.taken", "id", id)
 
 	transactionToRevert, err := commander.store.GetTransaction(ctx, id)
+	verifhook.Yield(ctx, "revert.read", "found", err == nil, "reverted", err == nil && transactionToRevert.Reverted)
 	if err != nil {
 		if storageerrors.IsNotFoundError(err) {
 			return nil, NewErrRevertTransactionNotFound()
